@@ -465,3 +465,11 @@ def replay(ctx, case):
             if kind == case['kind']:
                 table = dict(ocalls)
                 run_history(ctx, st, make, [(l, table[l]) for l in case['history']], kind, 0)
+
+
+SUITE_WORKLOAD = True
+
+
+def install_generic(ctx):
+    """monitor for the repository's own suite: the purity contract on every catalogue function"""
+    install(ctx, State())
